@@ -628,9 +628,9 @@ def _pixels_prefix(n, nnz, valfn):
     return [[i, j, valfn(i, j)] for (i, j) in _upper(n)[:nnz]]
 
 
-def _rand_cooler(rng, maxbins, maxnnz, minnnz=0, dense=False):
-    nch = rng.choice([1, 2, 2, 3])
-    n = rng.randint(max(nch, 2), maxbins)
+def _rand_cooler(rng, maxbins, maxnnz, minnnz=0, dense=False, minchroms=1, minbins=2):
+    nch = rng.choice([c for c in (1, 2, 2, 3) if c >= minchroms])
+    n = rng.randint(max(nch, minbins), maxbins)
     cuts = sorted(rng.sample(range(1, n), nch - 1)) if nch > 1 else []
     chroms = [b - a for a, b in zip([0] + cuts, cuts + [n])]
     pos = _upper(n)
@@ -732,7 +732,7 @@ def cases(tier, rng):
              ([2, 1, 2], _pixels_prefix(5, 12, lambda i, j: 1 + (i + 2 * j) % 5)),   # 12: many divisors
              ([2, 3], [[2, 2, 4], [2, 3, 1], [2, 4, 9], [3, 3, 2], [3, 4, 5], [4, 4, 8]])]   # first chromosome has no pixels
     coolers = list(fixed)
-    for _ in range(12 if thorough else 3):
+    for _ in range(20 if thorough else 3):
         coolers.append(_rand_cooler(rng, 8, 16 if thorough else 12, minnnz=3))
     for ci, (chroms, px) in enumerate(coolers):
         n = sum(chroms)
@@ -756,13 +756,13 @@ def cases(tier, rng):
                         yield "pipeline", dict(base, map=kind, nproc=rng.randint(2, 4), seed=0)
 
     # (c) full balance_cooler across schedules -----------------------------------------------------
-    nb = 40 if thorough else 18
+    nb = 70 if thorough else 18
     for bi in range(nb):
         big = thorough and bi % 4 == 0
-        chroms, px = _rand_cooler(rng, 10 if big else (8 if thorough else 7), 40 if big else (24 if thorough else 18), minnnz=4, dense=rng.random() < 0.5)
-        px = [p for p in px]
-        n, nnz = sum(chroms), len(px)
         mode = ["gw", "cis", "trans"][bi % 3]
+        chroms, px = _rand_cooler(rng, 10 if big else (8 if thorough else 7), 40 if big else (24 if thorough else 18), minnnz=6,
+                                  dense=rng.random() < 0.6, minchroms=2 if mode == "trans" else 1, minbins=4)
+        n, nnz = sum(chroms), len(px)
         opts = _rand_opts(rng, n, thorough, mode)
         if big:
             opts["max_iters"] = min(opts["max_iters"], 12)
@@ -860,7 +860,8 @@ def escalate(name, case, rng):
     if name == "spans_unit":
         chroms, px = case["chroms"], case["pixels"]
     elif name == "partition_unit":
-        chroms, px = [2, 1, 2], _pixels_prefix(5, min(12, max(3, case["hi"] - case["lo"])), lambda i, j: 1 + (i + j) % 3)
+        # chromosome 0 owns rows [0, 9) of 12: a span of its cis-only pass that overshoots reads another chromosome's pixels
+        chroms, px = [2, 1, 2], _pixels_prefix(5, 12, lambda i, j: 1 + (i + j) % 3)
     else:
         return None
     nnz = len(px)
